@@ -130,9 +130,16 @@ class OpenModel:
             return UNIT
         def h_zeroed(ex, st, callee, args, fn):
             return Struct([Struct([Struct([z3.IntVal(0), z3.IntVal(0)]), z3.IntVal(0), z3.IntVal(0), z3.IntVal(0)])])
+        def h_other_libc(ex, st, callee, args, fn):
+            # any other foreign function: recorded with an arbitrary integer result (it must not be resolved by name to a Rust function
+            # that happens to be called the same, e.g. nix::fcntl::flock for libc::flock)
+            name = callee.strip().rsplit('::', 1)[-1]
+            st.trace = st.trace + (Event('syscall:' + name, tuple(a for a in args if isinstance(a, z3.ExprRef)), None),)
+            return ex.fresh('ret_' + name)
         return [(r'MaybeUninit::<(shm_header::)?ShmHeader>::zeroed$', h_zeroed), (r'read_volatile$|ptr::read$', h_read_rec), (r'(^|::)(fence|compiler_fence)$', h_fence), (r'^libc::open$|(^|::)open$', h_open), (r'^libc::read$', h_read), (r'^libc::mmap$', h_mmap), (r'^libc::close$', h_close), (r'^libc::munmap$', h_munmap),
                 (r'(^|::)errno::errno$|^errno$', h_errno), (r'<impl str>::as_bytes$', h_as_bytes), (r'CStr::from_bytes_with_nul$', h_from_bytes),
-                (r'Atomic(::<\w+>)?::into_inner$', h_into_inner), (r'Atomic(::<\w+>)?::load$', h_atomic_load), (r'(^|::)CStr::as_ptr$', lambda ex, st, c, a, f: Opaque('cptr'))]
+                (r'Atomic(::<\w+>)?::into_inner$', h_into_inner), (r'Atomic(::<\w+>)?::load$', h_atomic_load), (r'(^|::)CStr::as_ptr$', lambda ex, st, c, a, f: Opaque('cptr')),
+                (r'^libc::(?!open$|read$|mmap$|close$|munmap$)[a-z_0-9]+$', h_other_libc)]
 
     def run(self, fn=None, args=None, extra_env=(), opaque=()):
         ex = Exec(self.prog, env=list(extra_env) + self.env(), opaque_calls=list(opaque))
